@@ -12,7 +12,7 @@ var extraNotes4 = map[string][2]string{
 	"C12": {"removal-list rule shared with C16", "(G4) = C16.G1: the list of chunks an eviction may delete (getUnRepeatChunk) never holds a chunk whose per-file reference count exceeds one."},
 	"C25": {"choice rule for the written duration", "(G2) on the edges carrying each alternative into the written duration: the stored duration is kept only where it is 0 (forever) or the request is not 0; the requested one is written only where the stored one is not 0 and the request is 0 or not smaller."},
 	"C29": {"requested-orders test", "(G4) inArray answers true only behind an equality of the proximity with an element of the requested orders, neither side narrowed first (uint8(order) maps 258 onto 2)."},
-	"C31": {"monotone-write rule for the running totals", "(W2) outside the constructor every assignment to retrieveTraffic / retrieveChequeTraffic / transferTraffic / transferChequeTraffic is max(current, x), current + x on a fresh big.Int, or the cumulative payout of the cheque being recorded — never a plain copy that could lower it."},
+	"C31": {"monotone-write rule for the running totals", "(W2) outside the constructor every assignment to retrieveTraffic / retrieveChequeTraffic / transferTraffic / transferChequeTraffic is max(current, x), current + x on a fresh big.Int, or the cumulative payout of the cheque being recorded — never a plain copy that could lower it; (W3) chequeStore.PutChainRetrieveTraffic (the persisted cashed amount) is handed only a value returned by the chain's TransAmount."},
 	"C33": {"restore-set exhaustiveness", "(H1) in trafficInit the keys of LastSendCheques() and LastReceivedCheques() are inserted into the address set that getAllAddress / replaceTraffic restore; (Lk3) the balance Pay hands to issue is computed from Traffic fields read with the peer's mutex held, in the critical section that issues and records the cheque."},
 	"C40": {"ordering rule for subscription vs unsubscription", "(O1) Subscribe queues the subscription before starting the unsubscribing goroutine, and either both travel on one channel or the unsubscription branch of process first receives len(subInfoChan) queued subscriptions before loading the subscriber list."},
 	"C21": {"derived-answer rule for the queries", "(P3) Length / BinSize / BinPeers / ShallowestEmpty / Exists read no field of the set other than the bins, the lock and the fixed configuration (sufficient condition: a cached size would be reported for review)."},
@@ -27,6 +27,7 @@ var extraNotes4 = map[string][2]string{
 	"C28": {"sign-once rule", "(W2) a function of pkg/routetab that extends a field of the message it is given (msg.Paths = generatePaths(msg.Paths)) is not called inside a loop with an argument that is the same object on every iteration."},
 	"C24": {"guard rule for removals from the known set", "(G3) every knownPeers.Remove(p) is preceded in its function by connectedPeers.Remove(p) or lies behind connectedPeers.Exists(p) == false."},
 	"C37": {"error-then-dereference rule", "(S10) the pointer result of a (pointer, error) call whose arguments are peer-controlled (also through library parsers) is dereferenced only behind the edge on which that error is nil, or the pointer was tested non-nil."},
+	"C26": {"unconditional clearing", "(F2 ext) every return of Unflag is preceded by the delete of the peer's entry — a success clears the flag whatever the network status."},
 	"C20": {"scan-width rule", "(K1) the byte limit of the comparison loop in Proximity / ExtendedProximity starts from a constant K with K*8 >= the function's own cap (MaxPO / ExtendedPO)."},
 }
 
